@@ -2,7 +2,7 @@
 
 use futures_core::Stream;
 
-use super::core::{AsyncWaiter, STATE_CANCELLED, STATE_WAITING};
+use super::core::{AsyncWaiter, STATE_CANCELLED, STATE_SUCCESS_SPACE, STATE_WAITING};
 use super::{AsyncReceiver, AsyncSender};
 use crate::error::{BatchSendErrorReason, SendBatchError, SendError, TrySendError};
 use crate::RecvError;
@@ -43,15 +43,24 @@ impl<'a, T: Send> SendFuture<'a, T> {
 impl<T: Send> Drop for SendFuture<'_, T> {
   fn drop(&mut self) {
     if self.is_registered {
-      let _ = self.state.compare_exchange(
-        STATE_WAITING,
-        STATE_CANCELLED,
-        Ordering::SeqCst,
-        Ordering::SeqCst,
-      );
-      let mut guard = self.sender.shared.internal.lock();
-      let state_ptr = &self.state as *const AtomicU8;
-      guard.waiting_async_senders.retain(|w| w.state != state_ptr);
+      let cancelled = self
+        .state
+        .compare_exchange(
+          STATE_WAITING,
+          STATE_CANCELLED,
+          Ordering::SeqCst,
+          Ordering::SeqCst,
+        )
+        .is_ok();
+      {
+        let mut guard = self.sender.shared.internal.lock();
+        let state_ptr = &self.state as *const AtomicU8;
+        guard.waiting_async_senders.retain(|w| w.state != state_ptr);
+      }
+      // Woken for free space but dropped before using it: pass the wake on.
+      if !cancelled && self.state.load(Ordering::SeqCst) == STATE_SUCCESS_SPACE {
+        self.sender.shared.forward_send_wake();
+      }
     }
   }
 }
@@ -196,15 +205,24 @@ impl<'a, T: Send> SendBatchFuture<'a, T> {
 impl<T: Send> Drop for SendBatchFuture<'_, T> {
   fn drop(&mut self) {
     if self.is_registered {
-      let _ = self.state.compare_exchange(
-        STATE_WAITING,
-        STATE_CANCELLED,
-        Ordering::SeqCst,
-        Ordering::SeqCst,
-      );
-      let mut guard = self.sender.shared.internal.lock();
-      let state_ptr = &self.state as *const AtomicU8;
-      guard.waiting_async_senders.retain(|w| w.state != state_ptr);
+      let cancelled = self
+        .state
+        .compare_exchange(
+          STATE_WAITING,
+          STATE_CANCELLED,
+          Ordering::SeqCst,
+          Ordering::SeqCst,
+        )
+        .is_ok();
+      {
+        let mut guard = self.sender.shared.internal.lock();
+        let state_ptr = &self.state as *const AtomicU8;
+        guard.waiting_async_senders.retain(|w| w.state != state_ptr);
+      }
+      // Woken for free space but dropped before using it: pass the wake on.
+      if !cancelled && self.state.load(Ordering::SeqCst) == STATE_SUCCESS_SPACE {
+        self.sender.shared.forward_send_wake();
+      }
     }
   }
 }
@@ -397,15 +415,24 @@ impl<'a, T: Send> SendBatchMutFuture<'a, T> {
 impl<T: Send> Drop for SendBatchMutFuture<'_, T> {
   fn drop(&mut self) {
     if self.is_registered {
-      let _ = self.state.compare_exchange(
-        STATE_WAITING,
-        STATE_CANCELLED,
-        Ordering::SeqCst,
-        Ordering::SeqCst,
-      );
-      let mut guard = self.sender.shared.internal.lock();
-      let state_ptr = &self.state as *const AtomicU8;
-      guard.waiting_async_senders.retain(|w| w.state != state_ptr);
+      let cancelled = self
+        .state
+        .compare_exchange(
+          STATE_WAITING,
+          STATE_CANCELLED,
+          Ordering::SeqCst,
+          Ordering::SeqCst,
+        )
+        .is_ok();
+      {
+        let mut guard = self.sender.shared.internal.lock();
+        let state_ptr = &self.state as *const AtomicU8;
+        guard.waiting_async_senders.retain(|w| w.state != state_ptr);
+      }
+      // Woken for free space but dropped before using it: pass the wake on.
+      if !cancelled && self.state.load(Ordering::SeqCst) == STATE_SUCCESS_SPACE {
+        self.sender.shared.forward_send_wake();
+      }
     }
     if let Some(item) = self.pending.take() {
       self.items.insert(0, item);
@@ -620,17 +647,26 @@ impl<'a, T: Send> Future for RecvBatchFuture<'a, T> {
 impl<T: Send> Drop for RecvBatchFuture<'_, T> {
   fn drop(&mut self) {
     if self.is_registered {
-      let _ = self.state.compare_exchange(
-        STATE_WAITING,
-        STATE_CANCELLED,
-        Ordering::SeqCst,
-        Ordering::SeqCst,
-      );
-      let mut guard = self.receiver.shared.internal.lock();
-      let state_ptr = &self.state as *const AtomicU8;
-      guard
-        .waiting_async_receivers
-        .retain(|w| w.state != state_ptr);
+      let cancelled = self
+        .state
+        .compare_exchange(
+          STATE_WAITING,
+          STATE_CANCELLED,
+          Ordering::SeqCst,
+          Ordering::SeqCst,
+        )
+        .is_ok();
+      {
+        let mut guard = self.receiver.shared.internal.lock();
+        let state_ptr = &self.state as *const AtomicU8;
+        guard
+          .waiting_async_receivers
+          .retain(|w| w.state != state_ptr);
+      }
+      // Woken for a buffered item but dropped before taking it: pass the wake on.
+      if !cancelled && self.state.load(Ordering::SeqCst) == STATE_SUCCESS_SPACE {
+        self.receiver.shared.forward_recv_wake();
+      }
     }
   }
 }
@@ -710,17 +746,26 @@ impl<'a, T: Send> Future for RecvBatchMutFuture<'a, T> {
 impl<T: Send> Drop for RecvBatchMutFuture<'_, T> {
   fn drop(&mut self) {
     if self.is_registered {
-      let _ = self.state.compare_exchange(
-        STATE_WAITING,
-        STATE_CANCELLED,
-        Ordering::SeqCst,
-        Ordering::SeqCst,
-      );
-      let mut guard = self.receiver.shared.internal.lock();
-      let state_ptr = &self.state as *const AtomicU8;
-      guard
-        .waiting_async_receivers
-        .retain(|w| w.state != state_ptr);
+      let cancelled = self
+        .state
+        .compare_exchange(
+          STATE_WAITING,
+          STATE_CANCELLED,
+          Ordering::SeqCst,
+          Ordering::SeqCst,
+        )
+        .is_ok();
+      {
+        let mut guard = self.receiver.shared.internal.lock();
+        let state_ptr = &self.state as *const AtomicU8;
+        guard
+          .waiting_async_receivers
+          .retain(|w| w.state != state_ptr);
+      }
+      // Woken for a buffered item but dropped before taking it: pass the wake on.
+      if !cancelled && self.state.load(Ordering::SeqCst) == STATE_SUCCESS_SPACE {
+        self.receiver.shared.forward_recv_wake();
+      }
     }
   }
 }
@@ -792,18 +837,26 @@ impl<'a, T: Send> Future for RecvFuture<'a, T> {
 impl<T: Send> Drop for RecvFuture<'_, T> {
   fn drop(&mut self) {
     if self.is_registered {
-      let _ = self.state.compare_exchange(
-        STATE_WAITING,
-        STATE_CANCELLED,
-        Ordering::SeqCst,
-        Ordering::SeqCst,
-      );
-      // Eagerly unlink the waiter so the future's memory can be safely freed.
-      let mut guard = self.receiver.shared.internal.lock();
-      let state_ptr = &self.state as *const AtomicU8;
-      guard
-        .waiting_async_receivers
-        .retain(|w| w.state != state_ptr);
+      let cancelled = self
+        .state
+        .compare_exchange(
+          STATE_WAITING,
+          STATE_CANCELLED,
+          Ordering::SeqCst,
+          Ordering::SeqCst,
+        )
+        .is_ok();
+      {
+        let mut guard = self.receiver.shared.internal.lock();
+        let state_ptr = &self.state as *const AtomicU8;
+        guard
+          .waiting_async_receivers
+          .retain(|w| w.state != state_ptr);
+      }
+      // Woken for a buffered item but dropped before taking it: pass the wake on.
+      if !cancelled && self.state.load(Ordering::SeqCst) == STATE_SUCCESS_SPACE {
+        self.receiver.shared.forward_recv_wake();
+      }
     }
   }
 }
